@@ -23,7 +23,13 @@ EXPLANATION = (
     "must be a position of the traced fiber (index from _coord2pos, "
     "start + enumerate over the raw positional generator) or a "
     "destination-side populate address; an ordinal of a default-skipping "
-    "stream is reported.  Row order and stamp monotonicity are not decided.")
+    "stream is reported; (R4) every ticking generator (iterRange, "
+    "iterRangeShape, iterRangeShapeRef) refreshes the current point "
+    "(Metrics.addUse for its rank with the coordinate it is about to yield, "
+    "directly or through an accessor that does so whenever collecting) on "
+    "every path to its yield, so that rows of deeper ranks carry the "
+    "coordinate of the element being visited.  Row order and stamp "
+    "monotonicity are not decided.")
 RULE = ("one obligation per arity clause, per flush clause and per "
         "Metrics.addUse call site (position domain)")
 
@@ -34,6 +40,7 @@ def run(ctx):
     ctx.guard(r1_arity)
     ctx.guard(r2_flush)
     ctx.guard(r3_positions)
+    ctx.guard(r4_point)
 
 
 # ---------------------------------------------------------------------------
@@ -462,6 +469,11 @@ def r3_positions(ctx):
         for c in pat.calls(f, name="Metrics.addUse"):
             n += 1
             ctx.consulted.add(f.module.rel)
+            ty = pat.kwarg(c, "type_", 3)
+            if isinstance(ty, ast.Constant) and ty.value is None:
+                ctx.ok("C16.R3", f, c, "type_=None: refreshes the current point "
+                       "only, no row (and no position) is recorded")
+                continue
             kind, why = _classify_pos(ctx, f, c)
             if kind and kind.startswith("REL:"):
                 kind, why = "ORD", ("a position relative to the start offset "
@@ -481,3 +493,135 @@ def r3_positions(ctx):
                                   "argument of `%s` in %s (%s)"
                                   % (text(c)[:70], f.key, why))
     ctx.floor("C16.R3", n, 20, "Metrics.addUse call sites")
+
+
+# -- R4: the current point is refreshed before every yield of a ticking rank ----
+
+def _collect_names(ctx, f):
+    """({names true iff collecting}, rank variable) of a ticking generator."""
+    coll, rank = set(), None
+    for n in f.own_nodes():
+        if isinstance(n, ast.Assign) and isinstance(n.value, ast.Call):
+            fn = text(n.value.func)
+            if fn == "_prep_metrics_inc" and isinstance(n.targets[0], ast.Tuple) \
+                    and len(n.targets[0].elts) == 2:
+                coll.add(text(n.targets[0].elts[0]))
+                rank = text(n.targets[0].elts[1])
+            elif fn == "Metrics.isCollecting" and isinstance(n.targets[0], ast.Name):
+                coll.add(n.targets[0].id)
+    return coll, rank
+
+
+def _accessor_refreshes(ctx, callee):
+    """The accessor calls Metrics.addUse(<own rank>, <its first coordinate>, ..)
+    under no other branch condition than 'collecting', on every path to a
+    normal return.  -> (ok, reason)"""
+    from ..cfg import ENTRY
+    uses = [c for c in pat.calls(callee, name="Metrics.addUse")]
+    if not uses:
+        return False, "%s never calls Metrics.addUse" % callee.qual
+    g = cfg_of(callee, assert_edges=False)
+    why = None
+    for c in uses:
+        st = enclosing_stmt(c)
+        bad = None
+        for t, pol in guards(st, asserts=False):
+            for a, apol in pat.conjuncts(t, pol):
+                tt = text(a).replace(" ", "")
+                if not (apol and tt == "Metrics.isCollecting()"):
+                    bad = tt if apol else "not " + tt
+        if bad:
+            why = "its Metrics.addUse is additionally conditioned on `%s`" % bad
+            continue
+        coord_ok = len(c.args) > 1 and callee.vararg and \
+            text(c.args[1]).replace(" ", "") == "%s[0]" % callee.vararg
+        if not coord_ok:
+            why = "its Metrics.addUse does not pass the accessed coordinate"
+            continue
+        top = st
+        while getattr(top, "_parent", None) is not None and top not in callee.body:
+            top = top._parent
+        rets = pat.returns(callee)
+        if all(r not in g.reachable(ENTRY, avoid={top}) for r in rets):
+            return True, None
+        why = "a return of %s is reachable without passing its Metrics.addUse" % callee.qual
+    return False, why
+
+
+def r4_point(ctx):
+    I = "core/iterators.py:"
+    for name in ("iterRange", "iterRangeShape", "iterRangeShapeRef"):
+        f = ctx.func(I + name)
+        ys = pat.yields(f)
+        ctx.require(len(ys) == 1, "C16.R4: %s must have one yield" % name)
+        y = enclosing_stmt(ys[0])
+        yv = ys[0].value
+        ctx.require(isinstance(yv, ast.Call) and yv.args, "C16.R4: %s does not "
+                    "yield CoordPayload(coord, payload)" % name)
+        cvar = text(yv.args[0])
+        coll, rank = _collect_names(ctx, f)
+        ctx.require(coll and rank, "C16.R4: %s does not obtain (collecting, rank) "
+                    "from _prep_metrics_inc" % name)
+        loops = [a for a in _anc(y) if isinstance(a, ast.For)]
+        ctx.require(loops, "C16.R4: yield of %s is not in a loop" % name)
+        loop = loops[0]
+        g = cfg_of(f, assert_edges=False)
+        tickp = {"tick"} & set(f.all_param_names())
+        found, reasons = None, []
+        for c in f.own_nodes():
+            if not isinstance(c, ast.Call) or not is_within(c, loop):
+                continue
+            st = enclosing_stmt(c)
+            if text(c.func) == "Metrics.addUse":
+                if len(c.args) < 2 or text(c.args[0]) != rank or text(c.args[1]) != cvar:
+                    continue
+                # conditioned only on collecting (and tick)
+                top = st
+                conds = []
+                for t, pol in guards(st, stop=loop, asserts=False):
+                    conds.append((t, pol))
+                # guards shared with the yield do not count
+                ycond = {(text(t), pol) for t, pol in guards(y, stop=loop, asserts=False)}
+                extra = []
+                for t, pol in conds:
+                    if (text(t), pol) in ycond:
+                        continue
+                    for a, apol in pat.conjuncts(t, pol):
+                        tt = text(a).replace(" ", "")
+                        if not (apol and (tt in coll or tt in tickp)):
+                            extra.append(tt)
+                    top = [x for x in _anc(c) if isinstance(x, ast.If) and x.test is t][0] \
+                        if any(isinstance(x, ast.If) and x.test is t for x in _anc(c)) else top
+                if extra:
+                    reasons.append("addUse additionally conditioned on %s" % extra)
+                    continue
+                if g.dominates(top, y) or top is y:
+                    found = (c, "Metrics.addUse(%s, %s, ..) in front of the yield"
+                             % (rank, cvar))
+                else:
+                    reasons.append("addUse does not dominate the yield")
+            elif isinstance(c.func, ast.Attribute) and \
+                    c.func.attr in ("getPayload", "getPayloadRef") and \
+                    text(c.func.value) == f.params[0] and c.args and \
+                    text(c.args[0]) == cvar and len(c.args) == 1:
+                callee = ctx.prog.maybe_method("Fiber", c.func.attr)
+                if callee is None:
+                    continue
+                ok, why = _accessor_refreshes(ctx, callee)
+                if ok and g.dominates(st, y):
+                    found = found or (c, "%s(%s) records the coordinate whenever "
+                                      "collecting" % (c.func.attr, cvar))
+                elif not ok:
+                    reasons.append("%s: %s" % (c.func.attr, why))
+        if found:
+            ctx.ok("C16.R4", f, found[0], "current point refreshed before the "
+                   "yield: %s" % found[1], text_="%s point refresh" % name)
+        else:
+            ctx.bad("C16.R4", f, y, "%s yields coordinate `%s` without "
+                    "refreshing the current point of rank `%s` (%s): rows that "
+                    "deeper traced ranks write while this element is visited "
+                    "carry a stale coordinate for this rank (0 or the one left "
+                    "by an earlier access)" % (name, cvar, rank,
+                                               "; ".join(reasons) or "no "
+                                               "Metrics.addUse / recording accessor on the path"),
+                    text_="%s point refresh" % name)
